@@ -55,7 +55,13 @@ class C18:
         for e in calls:
             bound, extra, spreads, _ = bind_args(e.term, callee_params, skip_first)
             got = bound.get("audio_dir")
-            if got == ("param", "audio_dir"):
+            # the object and the path travel under their own names too
+            crossed = [p_ for p_ in ("obj", "path") if p_ in s.params and p_ in callee_params and bound.get(p_) is not None
+                       and bound.get(p_)[0] == "param" and bound.get(p_)[1] in ("obj", "path", "audio_dir") and bound.get(p_) != ("param", p_)]
+            if crossed:
+                ctx.bad("R18.1", file, fname, f"{what}({', '.join(p_ + '=' + show(bound[p_]) for p_ in crossed)})",
+                        f"{fname} hands {', '.join(show(bound[p_]) + ' over as ' + p_ for p_ in crossed)} to {what}: the arguments are crossed", e.lineno)
+            elif got == ("param", "audio_dir"):
                 ctx.ok("R18.1", f"{file}:{e.lineno} {fname}", f"audio_dir forwarded to {what}")
             else:
                 ctx.bad("R18.1", file, fname, f"{what}(... audio_dir={show(got) if got else 'missing'})",
@@ -303,7 +309,23 @@ class C18:
                         # the relative path went through a local name the condition reads indirectly (loop over its parts)
                         if any(mentions_rel(L_.iter) or any(mentions_rel(x) for x in walk(L_.iter)) for L_ in s.loops.values()):
                             guard = r
+                crossed = False
                 if guard is not None:
+                    # polarity: where the test is a plain membership / equality on the parent-directory name, the rejection is live
+                    # with `..` present and not live without it
+                    from sa.peval import peval as _pe, truth as _tr
+                    atoms = [x for x in walk(guard.live) if x[0] == "cmp" and x[1] in ("in", "notin", "eq", "ne")
+                             and any(y in (("const", ".."), ("ext", "os.pardir"), ("ext", "os.path.pardir")) for y in (x[2], x[3]))]
+                    if atoms:
+                        present = {a_: a_[1] in ("in", "eq") for a_ in atoms}
+                        absent = {a_: not v_ for a_, v_ in present.items()}
+                        if _tr(_pe(guard.live, present)) is False or _tr(_pe(guard.live, absent)) is True:
+                            crossed = True
+                if crossed:
+                    ctx.bad("R18.4", file, func, f"raise under `{show(guard.live)[:70]}`",
+                            f"the containment test is crossed: the rejection `{show(guard.live)[:100]}` is live for a relative path WITHOUT a `..` "
+                            f"part (every recording inside the directory is refused) and not live for one that climbs out of it", guard.lineno)
+                elif guard is not None:
                     ctx.ok("R18.4", f"{file}:{guard.lineno} {func}", "write: a relative path that climbs out of the directory (`..`) is rejected")
                 else:
                     ctx.bad("R18.4", file, func, "Path(obj.path).relative_to(self.audio_dir) (lexical containment only)",
